@@ -729,3 +729,17 @@ impl<'a> ConstraintValidator<'a> {
         Ok(())
     }
 }
+
+/// Verification hooks (compiled only with `--cfg kahflane_turdb_verif`).
+#[cfg(kahflane_turdb_verif)]
+impl<'a> ConstraintValidator<'a> {
+    pub fn verif_days_from_ymd(year: i32, month: u32, day: u32) -> i32 {
+        Self::days_from_ymd(year, month, day)
+    }
+    pub fn verif_parse_date_default(s: &str) -> crate::types::OwnedValue {
+        Self::parse_date_default(s)
+    }
+    pub fn verif_parse_time_default(s: &str) -> crate::types::OwnedValue {
+        Self::parse_time_default(s)
+    }
+}
